@@ -341,53 +341,180 @@ func genG03(repo string, w *Out) error {
 	if err != nil {
 		return err
 	}
-	// the request's read deadline is cleared before the copiers start (net/http's Hijack does it for the handler)
-	clears := false
-	{
-		tcalls := g03Calls(pc, tn.Body)
-		cl, ok1 := g03Find(tcalls, "p.conn.SetReadDeadline(time.Time{})")
-		bi, ok2 := g03Find(tcalls, "bicopy(")
-		if !ok2 {
-			return fmt.Errorf("proxy_conn.go tunnel: bicopy call not found")
-		}
-		clears = ok1 && cl.pos < bi.pos
-	}
-	// writeResponse…: the write deadline armed for a response (WriteTimeout) is cleared again by a
-	// deferred SetWriteDeadline(time.Time{}) — otherwise it stays on the client connection of a tunnel
-	wrName := "proxyConn.writeResponseDeferTrace"
-	wrf, err := pc.Func(wrName)
+	// ---- deadlines armed on the client connection up to the hand-over, as a statement list ----
+	// codes (coq/g03/Deadlines.v dop_of_code): 0 RArmIdle 1 RArmHeader 2 RArmWholeIfDiff 3 WArmIfSet
+	// 4 WClearIfSet 5 RClear 6 WClear 7 RWClear
+	var dops []uint64
+	px, err := Parse(repo, "internal/martian/proxy.go")
 	if err != nil {
-		wrName = "proxyConn.writeResponse"
-		if wrf, err = pc.Func(wrName); err != nil {
-			return err
-		}
+		return err
 	}
-	arms, deferredClear := false, false
-	ast.Inspect(wrf.Body, func(x ast.Node) bool {
-		switch z := x.(type) {
-		case *ast.CallExpr:
-			if strings.HasPrefix(pc.Src(z), "p.conn.SetWriteDeadline(time.Now().Add(") {
-				arms = true
-			}
-		case *ast.DeferStmt:
-			for _, c := range pc.CallsIn(z) {
-				if c == "p.conn.SetWriteDeadline(time.Time{})" {
-					deferredClear = true
-				}
-			}
+	rr, err := pc.Func("proxyConn.readRequest")
+	if err != nil {
+		return err
+	}
+	// how the three read deadlines are computed (modelled in Deadlines.v: dl_of, idle_eff, hdr_eff)
+	var ifs []string
+	ast.Inspect(rr.Body, func(x ast.Node) bool {
+		if is, ok := x.(*ast.IfStmt); ok && is.Init != nil {
+			ifs = append(ifs, pc.Src(is.Init)+"; "+pc.Src(is.Cond)+" "+pc.Src(is.Body))
 		}
 		return true
 	})
-	// also accepted: the tunnel itself clears it before the copiers start
-	if _, ok := g03Find(g03Calls(pc, tn.Body), "p.conn.SetWriteDeadline(time.Time{})"); ok {
-		deferredClear = true
+	for _, want := range []string{
+		"d := p.idleTimeout(); d > 0 { idleDeadline = time.Now().Add(d) }",
+		"d := p.readHeaderTimeout(); d > 0 { hdrDeadline = t0.Add(d) }",
+		"d := p.ReadTimeout; d > 0 { wholeReqDeadline = t0.Add(d) }",
+	} {
+		if !has(ifs, want) {
+			return fmt.Errorf("proxy_conn.go readRequest: deadline computation `if %s` not found (have %q)", want, ifs)
+		}
 	}
-	if _, ok := g03Find(g03Calls(pc, tn.Body), "p.conn.SetDeadline(time.Time{})"); ok {
-		deferredClear = true
-		clears = true
+	for _, fn := range [][2]string{{"Proxy.idleTimeout", "p.IdleTimeout"}, {"Proxy.readHeaderTimeout", "p.ReadHeaderTimeout"}} {
+		fd, err := px.Func(fn[0])
+		if err != nil {
+			return err
+		}
+		want := "{ if " + fn[1] + " > 0 { return " + fn[1] + " } return p.ReadTimeout }"
+		if got := px.Src(fd.Body); got != want {
+			return fmt.Errorf("proxy.go %s: body %q is not the shape the model knows (%q)", fn[0], got, want)
+		}
 	}
-	w.DefBool("tunnel_clears_read_deadline", clears)
-	w.DefBool("response_write_deadline_cleared", !arms || deferredClear)
+	var shapeErr error
+	walkDeadlines := func(what string, body ast.Node, stop token.Pos, classify func(call string, guard string, deferred bool) (uint64, bool)) {
+		var guards []ast.Node
+		var walk func(n ast.Node, guard string, deferred bool)
+		walk = func(n ast.Node, guard string, deferred bool) {
+			ast.Inspect(n, func(x ast.Node) bool {
+				switch z := x.(type) {
+				case *ast.IfStmt:
+					if z.Init != nil {
+						walk(z.Init, guard, deferred)
+					}
+					walk(z.Cond, guard, deferred)
+					walk(z.Body, pc.Src(z.Cond), deferred)
+					if z.Else != nil {
+						walk(z.Else, "else", deferred)
+					}
+					return false
+				case *ast.DeferStmt:
+					walk(z.Call, guard, true)
+					return false
+				case *ast.CallExpr:
+					src := pc.Src(z)
+					if strings.HasPrefix(src, "p.conn.Set") && strings.Contains(pc.Src(z.Fun), "Deadline") {
+						if stop != 0 && z.Pos() > stop {
+							return true // after the copiers have run: not part of the hand-over
+						}
+						code, ok := classify(src, guard, deferred)
+						if !ok {
+							shapeErr = fmt.Errorf("%s: deadline statement %q (guard %q, deferred %v) is not a shape the model knows", what, src, guard, deferred)
+							return true
+						}
+						dops = append(dops, code)
+					}
+				}
+				return true
+			})
+		}
+		_ = guards
+		walk(body, "", false)
+	}
+	walkDeadlines("proxy_conn.go readRequest", rr.Body, 0, func(call, guard string, deferred bool) (uint64, bool) {
+		switch {
+		case call == "p.conn.SetReadDeadline(idleDeadline)" && !deferred:
+			return 0, true
+		case call == "p.conn.SetReadDeadline(hdrDeadline)" && !deferred:
+			return 1, true
+		case call == "p.conn.SetReadDeadline(wholeReqDeadline)" && guard == "!hdrDeadline.Equal(wholeReqDeadline)" && !deferred:
+			return 2, true
+		}
+		return 0, false
+	})
+	wrf, err := pc.Func("proxyConn.writeResponseDeferTrace")
+	if err != nil {
+		if wrf, err = pc.Func("proxyConn.writeResponse"); err != nil {
+			return err
+		}
+	}
+	var deferredClears []uint64
+	walkDeadlines("proxy_conn.go writeResponse", wrf.Body, 0, func(call, guard string, deferred bool) (uint64, bool) {
+		switch {
+		case call == "p.conn.SetWriteDeadline(time.Now().Add(p.WriteTimeout))" && guard == "p.WriteTimeout > 0" && !deferred:
+			return 3, true
+		case call == "p.conn.SetWriteDeadline(time.Time{})" && deferred:
+			// the deferred function is declared inside `if p.WriteTimeout > 0`; its own `if deadlineErr := …` is the innermost guard
+			return 4, true
+		case call == "p.conn.SetWriteDeadline(time.Time{})" && guard == "p.WriteTimeout > 0" && !deferred:
+			return 4, true
+		}
+		return 0, false
+	})
+	_ = deferredClears
+	// a deferred clearing must sit inside the same `if p.WriteTimeout > 0` as the arming (same guard in the model)
+	if n := len(dops); n > 0 && dops[n-1] == 4 {
+		okGuard := false
+		ast.Inspect(wrf.Body, func(x ast.Node) bool {
+			if is, ok := x.(*ast.IfStmt); ok && pc.Src(is.Cond) == "p.WriteTimeout > 0" {
+				src := pc.Src(is.Body)
+				if strings.Contains(src, "SetWriteDeadline(time.Now().Add(p.WriteTimeout))") && strings.Contains(src, "SetWriteDeadline(time.Time{})") {
+					okGuard = true
+				}
+			}
+			return true
+		})
+		if !okGuard {
+			return fmt.Errorf("proxy_conn.go writeResponse: arming and clearing of the write deadline are not under the same `if p.WriteTimeout > 0`")
+		}
+	}
+	var bicopyPos token.Pos
+	if bi, ok := g03Find(g03Calls(pc, tn.Body), "bicopy("); ok {
+		bicopyPos = bi.pos
+	} else {
+		return fmt.Errorf("proxy_conn.go tunnel: bicopy call not found")
+	}
+	walkDeadlines("proxy_conn.go tunnel", tn.Body, bicopyPos, func(call, guard string, deferred bool) (uint64, bool) {
+		if deferred {
+			return 0, false
+		}
+		switch call {
+		case "p.conn.SetReadDeadline(time.Time{})":
+			return 5, true
+		case "p.conn.SetWriteDeadline(time.Time{})":
+			return 6, true
+		case "p.conn.SetDeadline(time.Time{})":
+			return 7, true
+		}
+		return 0, false
+	})
+	if shapeErr != nil {
+		return shapeErr
+	}
+	{
+		parts := make([]string, len(dops))
+		for i, c := range dops {
+			parts[i] = fmt.Sprintf("%d", c)
+		}
+		lst := "(@nil N)"
+		if len(parts) > 0 {
+			lst = "[" + strings.Join(parts, "; ") + "]"
+		}
+		w.Linef("Definition handover_deadline_ops : list N := %s. (* readRequest, writeResponse, tunnel: deadline statements in source order *)", lst)
+	}
+	// nothing in the copy phase touches a deadline
+	noDl := true
+	for _, fn := range []string{"bicopy", "copier.copy", "copier.closeWriter", "drainBuffer", "gracefulCloseAfter"} {
+		fd, err := cp.Func(fn)
+		if err != nil {
+			return err
+		}
+		for _, c := range cp.CallsIn(fd.Body) {
+			if strings.Contains(c, "Deadline(") {
+				noDl = false
+			}
+		}
+	}
+	w.DefBool("copy_phase_sets_no_deadline", noDl)
 	w.DefBool("tunnel_drain_first", df1 && df2)
 	w.DefBool("up_copier_reads_bufio", ub1 || ub2)
 
@@ -442,10 +569,6 @@ func genG03(repo string, w *Out) error {
 		return true
 	})
 	w.DefBool("closes_upstream_after_tunnel", deferClose && bodyDefer)
-	px, err := Parse(repo, "internal/martian/proxy.go")
-	if err != nil {
-		return err
-	}
 	hl, err := px.Func("Proxy.handleLoop")
 	if err != nil {
 		return err
